@@ -1,6 +1,502 @@
-//! C43 — not implemented yet.
+//! C43 — Exact vector search is the literal ORDER BY … LIMIT.
+//!
+//! Generator: a table `vt(id BIGINT unique, cat BIGINT small-domain nullable,
+//! v FixedSizeList<Float32, d>)`, d ∈ {1,2,3,4,8,9,17}, vectors drawn from a
+//! small pool of small-integer / half-integer component vectors (so every
+//! distance is exactly representable and ties are frequent), NULL vectors,
+//! zero vectors; registered as a memory table (one batch cut into *sliced*
+//! pieces) or as Parquet, under the default Exact mode or the Indexed mode
+//! (these providers have no index, so the exact path must be taken anyway).
+//! Statements: `SELECT id, cat FROM vt [WHERE cat ..] ORDER BY f(v, [lit])
+//! [ASC|DESC] [NULLS FIRST|LAST] [, id] [LIMIT k [OFFSET m]]` for the four
+//! functions, k ∈ 0..n+3, plus the shapes that must not be rewritten (extra
+//! sort key, no LIMIT, distance inside an expression, the "wrong" direction,
+//! a join, argument order swapped).
+//!
+//! Oracles: (1) differential — the production optimizer vs the production rule
+//! list minus VectorSearchPushdown; (2) reference — the returned ids are
+//! distinct rows of the (filtered) table whose reference keys form exactly the
+//! window [m, m+k) of the reference ordering: equal multiset of keys (so ties
+//! may be broken either way), output sorted by key, NULL keys where ordered.
 use super::Property;
+use crate::data::*;
+use crate::engine::*;
+use crate::runner::*;
+use arrow::array::*;
+use arrow::datatypes::{DataType, Field, Schema};
+use proptest::prelude::*;
+use proptest::strategy::BoxedStrategy;
+use query_engine::execution::{ExecutionConfig, VectorSearchMode};
+use query_engine::optimizer::OptimizerRule;
+use query_engine::ExecutionContext;
+use serde::{Deserialize, Serialize};
+use std::sync::Arc;
+
+#[path = "c03_util.rs"]
+mod util;
+
+#[derive(Clone, Debug, Serialize, Deserialize)]
+pub struct VecCase {
+    pub dim: usize,
+    /// per row: cat (None = NULL), vector (None = NULL vector)
+    pub rows: Vec<(Option<i64>, Option<Vec<f32>>)>,
+    /// row cut points of the memory batches (slices of one batch)
+    pub cuts: Vec<usize>,
+    pub parquet: bool,
+    pub row_group_size: usize,
+    pub indexed_mode: bool,
+    /// 0 l2_distance, 1 cosine_distance, 2 cosine_similarity, 3 dot_product
+    pub func: u8,
+    pub query: Vec<f32>,
+    pub int_literal: bool,
+    pub desc: bool,
+    /// None default, Some(true) NULLS FIRST, Some(false) NULLS LAST
+    pub nulls_first: Option<bool>,
+    pub limit: Option<usize>,
+    pub offset: Option<usize>,
+    /// 0 canonical, 1 extra sort key `, id`, 2 distance + 1, 3 join with dim, 4 swapped argument order
+    pub shape: u8,
+    /// WHERE cat >= lit
+    pub filter: Option<i64>,
+    /// also project the vector column
+    pub select_vector: bool,
+}
+
+const FUNCS: [&str; 4] = ["l2_distance", "cosine_distance", "cosine_similarity", "dot_product"];
+
+fn lit(c: &VecCase) -> String {
+    let parts: Vec<String> = c
+        .query
+        .iter()
+        .map(|x| {
+            if c.int_literal && x.fract() == 0.0 {
+                format!("{}", *x as i64)
+            } else {
+                format!("{:?}", *x as f64)
+            }
+        })
+        .collect();
+    format!("[{}]", parts.join(", "))
+}
+
+pub fn render(c: &VecCase) -> String {
+    let f = FUNCS[c.func as usize % 4];
+    let call = if c.shape == 4 { format!("{}({}, vt.v)", f, lit(c)) } else { format!("{}(vt.v, {})", f, lit(c)) };
+    let key = if c.shape == 2 { format!("({} + 1)", call) } else { call };
+    let mut sql = format!("SELECT vt.id, vt.cat{} FROM vt", if c.select_vector { ", vt.v" } else { "" });
+    if c.shape == 3 {
+        sql.push_str(" INNER JOIN dim ON vt.cat = dim.dcat");
+    }
+    if let Some(l) = c.filter {
+        sql.push_str(&format!(" WHERE vt.cat >= {}", l));
+    }
+    sql.push_str(&format!(" ORDER BY {} {}", key, if c.desc { "DESC" } else { "ASC" }));
+    match c.nulls_first {
+        Some(true) => sql.push_str(" NULLS FIRST"),
+        Some(false) => sql.push_str(" NULLS LAST"),
+        None => {}
+    }
+    if c.shape == 1 {
+        sql.push_str(", vt.id ASC");
+    }
+    if let Some(k) = c.limit {
+        sql.push_str(&format!(" LIMIT {}", k));
+        if let Some(m) = c.offset {
+            sql.push_str(&format!(" OFFSET {}", m));
+        }
+    }
+    sql
+}
+
+/// reference key of a row (None = NULL): exact arithmetic in f64 over f32 inputs
+fn ref_key(c: &VecCase, v: &Option<Vec<f32>>) -> Option<f64> {
+    let v = v.as_ref()?;
+    let q = &c.query;
+    let dot: f64 = v.iter().zip(q).map(|(a, b)| (*a as f64) * (*b as f64)).sum();
+    let nv: f64 = v.iter().map(|a| (*a as f64) * (*a as f64)).sum::<f64>().sqrt();
+    let nq: f64 = q.iter().map(|a| (*a as f64) * (*a as f64)).sum::<f64>().sqrt();
+    let sim = if nv * nq == 0.0 { 0.0 } else { dot / (nv * nq) };
+    let k = match c.func % 4 {
+        0 => v.iter().zip(q).map(|(a, b)| ((*a - *b) as f64) * ((*a - *b) as f64)).sum::<f64>().sqrt(),
+        1 => 1.0 - sim,
+        2 => sim,
+        _ => dot,
+    };
+    Some(if c.shape == 2 { k + 1.0 } else { k })
+}
+
+fn close(a: f64, b: f64) -> bool {
+    a == b || (a - b).abs() <= 1e-6 * a.abs().max(b.abs()).max(1.0)
+}
+
+fn key_eq(a: &Option<f64>, b: &Option<f64>) -> bool {
+    match (a, b) {
+        (None, None) => true,
+        (Some(x), Some(y)) => close(*x, *y),
+        _ => false,
+    }
+}
+
+/// -1 / 0 / 1: does `a` sort before `b` under the statement's direction and NULL placement?
+fn key_cmp(c: &VecCase, a: &Option<f64>, b: &Option<f64>) -> std::cmp::Ordering {
+    use std::cmp::Ordering::*;
+    // default NULL ordering is NULLS LAST for both directions (binder.rs)
+    let nulls_first = c.nulls_first.unwrap_or(false);
+    match (a, b) {
+        (None, None) => Equal,
+        (None, Some(_)) => {
+            if nulls_first {
+                Less
+            } else {
+                Greater
+            }
+        }
+        (Some(_), None) => {
+            if nulls_first {
+                Greater
+            } else {
+                Less
+            }
+        }
+        (Some(x), Some(y)) => {
+            if close(*x, *y) {
+                Equal
+            } else if (x < y) != c.desc {
+                Less
+            } else {
+                Greater
+            }
+        }
+    }
+}
+
+fn vt_batch(c: &VecCase) -> RecordBatch {
+    let n = c.rows.len();
+    let ids = Int64Array::from((0..n as i64).collect::<Vec<_>>());
+    let cats = Int64Array::from(c.rows.iter().map(|r| r.0).collect::<Vec<_>>());
+    let mut b = FixedSizeListBuilder::new(Float32Builder::new(), c.dim as i32);
+    for (_, v) in &c.rows {
+        match v {
+            Some(v) => {
+                for x in v {
+                    b.values().append_value(*x);
+                }
+                b.append(true);
+            }
+            None => {
+                for _ in 0..c.dim {
+                    b.values().append_null();
+                }
+                b.append(false);
+            }
+        }
+    }
+    let v = b.finish();
+    let schema = Arc::new(Schema::new(vec![
+        Field::new("id", DataType::Int64, true),
+        Field::new("cat", DataType::Int64, true),
+        Field::new("v", v.data_type().clone(), true),
+    ]));
+    RecordBatch::try_new(schema, vec![Arc::new(ids), Arc::new(cats), Arc::new(v)]).unwrap()
+}
+
+fn dim_table() -> Table {
+    Table {
+        name: "dim".into(),
+        cols: vec![Column { name: "dcat".into(), ty: ColType::Int }, Column { name: "label".into(), ty: ColType::Str }],
+        rows: vec![vec![Value::Int(0), Value::Str("zero".into())], vec![Value::Int(2), Value::Str("two".into())], vec![Value::Int(3), Value::Str("three".into())]],
+    }
+}
+
+fn context(c: &VecCase, dir: &TempDir) -> Result<ExecutionContext, String> {
+    let config = ExecutionConfig { vector_search_mode: if c.indexed_mode { VectorSearchMode::Indexed } else { VectorSearchMode::Exact }, ..ExecutionConfig::default() };
+    let mut ctx = ExecutionContext::with_config(config);
+    let batch = vt_batch(c);
+    if c.parquet {
+        use parquet::arrow::ArrowWriter;
+        use parquet::file::properties::WriterProperties;
+        let d = dir.path().join("vt");
+        std::fs::create_dir_all(&d).map_err(|e| e.to_string())?;
+        let props = WriterProperties::builder().set_max_row_group_size(c.row_group_size.max(1)).build();
+        let f = std::fs::File::create(d.join("part-000.parquet")).map_err(|e| e.to_string())?;
+        let mut w = ArrowWriter::try_new(f, batch.schema(), Some(props)).map_err(|e| e.to_string())?;
+        if batch.num_rows() > 0 {
+            w.write(&batch).map_err(|e| e.to_string())?;
+        }
+        w.close().map_err(|e| e.to_string())?;
+        ctx.register_parquet("vt", &d).map_err(|e| e.to_string())?;
+    } else {
+        let n = batch.num_rows();
+        let mut pts: Vec<usize> = c.cuts.iter().map(|x| (*x).min(n)).collect();
+        pts.sort();
+        pts.push(n);
+        let mut lo = 0;
+        let mut batches = vec![];
+        for p in pts {
+            batches.push(batch.slice(lo, p - lo));
+            lo = p;
+        }
+        ctx.register_table("vt", batch.schema(), batches);
+    }
+    register_mem(&mut ctx, &dim_table(), &[]);
+    Ok(ctx)
+}
+
+fn without_pushdown() -> Vec<Arc<dyn OptimizerRule>> {
+    util::production().into_iter().filter(|r| r.name() != "VectorSearchPushdown").collect()
+}
+
+fn vec_case(tier: Tier) -> BoxedStrategy<VecCase> {
+    let max_rows = tier.pick(12usize, 60);
+    (prop_oneof![Just(1usize), Just(2), Just(3), Just(4), Just(8), Just(9), Just(17)], prop_oneof![1 => Just(0usize), 12 => 1..=max_rows])
+        .prop_flat_map(move |(dim, n)| {
+            let comp = prop_oneof![Just(0f32), Just(1f32), Just(-1f32), Just(2f32), Just(0.5f32), Just(-2f32)];
+            let vector = proptest::collection::vec(comp.clone(), dim);
+            // a small pool → duplicate vectors → distance ties
+            let pool = proptest::collection::vec(vector.clone(), 1..=4);
+            (
+                Just(dim),
+                pool,
+                proptest::collection::vec((prop_oneof![1 => Just(None), 5 => (0i64..4).prop_map(Some)], 0u8..8), n),
+                vector,
+                proptest::collection::vec(0..=max_rows, 0..3),
+                (any::<bool>(), prop_oneof![Just(1usize), Just(2), Just(5), Just(1024)], any::<bool>()),
+                (0u8..4, prop_oneof![6 => Just(true), 1 => Just(false)], any::<bool>(), prop_oneof![8 => Just(None), 1 => Just(Some(true)), 1 => Just(Some(false))]),
+                (prop_oneof![1 => Just(None), 8 => (0..=n + 3).prop_map(Some)], prop_oneof![3 => Just(None), 2 => (0..=n + 1).prop_map(Some)]),
+                (prop_oneof![14 => Just(0u8), 2 => Just(1u8), 2 => Just(2u8), 2 => Just(3u8), 3 => Just(4u8)], prop_oneof![4 => Just(None), 1 => (0i64..4).prop_map(Some)], any::<bool>()),
+            )
+        })
+        .prop_map(|(dim, pool, rowspec, query, cuts, (parquet, row_group_size, indexed_mode), (func, natural_dir, int_literal, nulls_first), (limit, offset), (shape, filter, select_vector))| {
+            let rows = rowspec
+                .into_iter()
+                .map(|(cat, sel)| {
+                    let v = match sel {
+                        0 => None,
+                        1 => Some(vec![0f32; dim]),
+                        s => Some(pool[(s as usize) % pool.len()].clone()),
+                    };
+                    (cat, v)
+                })
+                .collect();
+            // natural direction = nearest first (ASC for distances, DESC for similarities)
+            let similarity = func >= 2;
+            let desc = if natural_dir { similarity } else { !similarity };
+            VecCase { dim, rows, cuts, parquet, row_group_size, indexed_mode, func, query, int_literal, desc, nulls_first, limit, offset, shape, filter, select_vector }
+        })
+        .boxed()
+}
+
+pub struct ExactKnn;
+
+impl ExactKnn {
+    /// check one engine answer (rows = [id, cat, ...]) against the reference window
+    fn check_rows(&self, c: &VecCase, rows: &Rows, what: &str) -> Result<(), String> {
+        // reference: filtered rows with keys
+        let dim_cats = [0i64, 2, 3];
+        let mut cand: Vec<(i64, Option<f64>)> = vec![];
+        for (i, (cat, v)) in c.rows.iter().enumerate() {
+            if let Some(l) = c.filter {
+                match cat {
+                    Some(x) if *x >= l => {}
+                    _ => continue,
+                }
+            }
+            if c.shape == 3 {
+                match cat {
+                    Some(x) if dim_cats.contains(x) => {}
+                    _ => continue,
+                }
+            }
+            cand.push((i as i64, ref_key(c, v)));
+        }
+        cand.sort_by(|a, b| key_cmp(c, &a.1, &b.1).then(a.0.cmp(&b.0)));
+        // (OFFSET is only written together with LIMIT)
+        let off = if c.limit.is_some() { c.offset.unwrap_or(0).min(cand.len()) } else { 0 };
+        let end = match c.limit {
+            Some(k) => (off + k).min(cand.len()),
+            None => cand.len(),
+        };
+        let window = &cand[off..end];
+        if rows.len() != window.len() {
+            return Err(format!("{}: {} rows returned, the ORDER BY/LIMIT/OFFSET window has {}", what, rows.len(), window.len()));
+        }
+        // returned ids: distinct, existing, carrying the table's cat
+        let mut seen = std::collections::BTreeSet::new();
+        let mut got_keys: Vec<Option<f64>> = vec![];
+        for r in rows {
+            let id = match r.first() {
+                Some(Value::Int(i)) if *i >= 0 && (*i as usize) < c.rows.len() => *i,
+                o => return Err(format!("{}: returned id {:?} is not a row of the table", what, o)),
+            };
+            if !seen.insert(id) {
+                return Err(format!("{}: row id {} returned twice", what, id));
+            }
+            if !cand.iter().any(|(i, _)| *i == id) {
+                return Err(format!("{}: row id {} does not satisfy the WHERE/JOIN", what, id));
+            }
+            let want_cat = match c.rows[id as usize].0 {
+                Some(x) => Value::Int(x),
+                None => Value::Null,
+            };
+            if r.get(1) != Some(&want_cat) {
+                return Err(format!("{}: row id {} returned with cat {:?}, the table has {:?}", what, id, r.get(1), want_cat));
+            }
+            got_keys.push(ref_key(c, &c.rows[id as usize].1));
+        }
+        // sorted as requested
+        for w in got_keys.windows(2) {
+            if key_cmp(c, &w[0], &w[1]) == std::cmp::Ordering::Greater {
+                return Err(format!("{}: output is not ordered by the sort key: {:?} before {:?}", what, w[0], w[1]));
+            }
+        }
+        // the window's keys, as a multiset (position by position after sorting both the same way)
+        for (i, (g, w)) in got_keys.iter().zip(window.iter()).enumerate() {
+            if !key_eq(g, &w.1) {
+                return Err(format!(
+                    "{}: the returned rows are not the window of best keys: position {} has key {:?}, the reference window has {:?}\n returned keys: {:?}\n reference window keys: {:?}",
+                    what,
+                    i,
+                    g,
+                    w.1,
+                    got_keys,
+                    window.iter().map(|x| x.1).collect::<Vec<_>>()
+                ));
+            }
+        }
+        if c.shape == 1 {
+            // total order: exact id sequence
+            let ids: Vec<i64> = rows.iter().map(|r| if let Value::Int(i) = r[0] { i } else { -1 }).collect();
+            let want: Vec<i64> = window.iter().map(|x| x.0).collect();
+            if ids != want {
+                return Err(format!("{}: with the id tiebreaker the order is total: got ids {:?}, expected {:?}", what, ids, want));
+            }
+        }
+        Ok(())
+    }
+}
+
+impl Check for ExactKnn {
+    type Case = VecCase;
+    fn name(&self) -> &'static str {
+        "exact_knn"
+    }
+    fn rule(&self) -> &'static str {
+        "the rewrite fired (the optimized plan contains a VectorSearch node) and k < number of table rows"
+    }
+    fn cases(&self, tier: Tier) -> u32 {
+        tier.pick(3000, 60_000)
+    }
+    fn strategy(&self, tier: Tier) -> BoxedStrategy<VecCase> {
+        vec_case(tier)
+    }
+    fn test(&self, c: &VecCase, obs: &mut Obs) -> Verdict {
+        let sql = render(c);
+        obs.sample(serde_json::json!({ "sql": sql, "rows": c.rows.len(), "dim": c.dim, "parquet": c.parquet, "indexed_mode": c.indexed_mode }));
+        let dir = TempDir::new("c43");
+        let ctx = match context(c, &dir) {
+            Ok(x) => x,
+            Err(e) => return Verdict::Discard(format!("registration:{}", crate::sqlcheck::short_err(&e))),
+        };
+        obs.label(format!("func:{}", FUNCS[c.func as usize % 4]));
+        obs.label(format!("shape:{}", c.shape));
+        obs.label(if c.parquet { "parquet" } else { "memory" });
+        obs.label(if c.indexed_mode { "mode:indexed" } else { "mode:exact" });
+        let fired = match std::panic::catch_unwind(std::panic::AssertUnwindSafe(|| ctx.optimized_plan(&sql))) {
+            Ok(Ok(p)) => format!("{}", p).contains("VectorSearch"),
+            Ok(Err(e)) => {
+                obs.label(format!("plan_error:{}", crate::sqlcheck::short_err(&e.to_string())));
+                return Verdict::Pass;
+            }
+            Err(_) => false,
+        };
+        obs.label(if fired { "rewrite_fired" } else { "rewrite_not_fired" });
+        let n = c.rows.len();
+        obs.nontrivial(fired && c.limit.map(|k| k < n).unwrap_or(false));
+        let natural = c.desc == (c.func % 4 >= 2);
+        if fired && (c.shape == 1 || c.shape == 2 || c.shape == 3 || !natural || c.limit.is_none() || c.nulls_first == Some(true)) {
+            return Verdict::Fail(format!("the k-NN rewrite fired on a shape it must leave alone\n sql: {}", sql));
+        }
+        let tables = || {
+            format!(
+                " sql: {}\n dim={} parquet={} indexed_mode={} cuts={:?}\n rows (id, cat, v, reference key):\n{}",
+                sql,
+                c.dim,
+                c.parquet,
+                c.indexed_mode,
+                c.cuts,
+                c.rows.iter().enumerate().map(|(i, (cat, v))| format!("  ({}, {:?}, {:?}, {:?})", i, cat, v, ref_key(c, v))).collect::<Vec<_>>().join("\n")
+            )
+        };
+        let with = run_sql(&ctx, &sql);
+        let without = run_with_rules(&ctx, &sql, without_pushdown());
+        match (&with, &without) {
+            (Err(a), Err(_)) => {
+                obs.label(format!("both_error:{}", crate::sqlcheck::short_err(a)));
+                return Verdict::Pass;
+            }
+            (Err(a), Ok(_)) => {
+                if fired {
+                    return Verdict::Fail(format!("the statement fails only with the k-NN rewrite: {}\n{}", a, tables()));
+                }
+                obs.label(format!("only_production_errors:{}", crate::sqlcheck::short_err(a)));
+                return Verdict::Pass;
+            }
+            (Ok(_), Err(b)) => {
+                obs.label(format!("only_baseline_errors:{}", crate::sqlcheck::short_err(b)));
+            }
+            (Ok(a), Ok(b)) => {
+                // differential: same number of rows and the same key sequence
+                let keys = |rows: &Rows| -> Vec<Option<f64>> {
+                    rows.iter()
+                        .map(|r| match r.first() {
+                            Some(Value::Int(i)) if *i >= 0 && (*i as usize) < n => ref_key(c, &c.rows[*i as usize].1),
+                            _ => None,
+                        })
+                        .collect()
+                };
+                let (ka, kb) = (keys(a), keys(b));
+                if ka.len() != kb.len() || ka.iter().zip(kb.iter()).any(|(x, y)| !key_eq(x, y)) {
+                    return Verdict::Fail(format!(
+                        "with and without VectorSearchPushdown the statement returns different rows (rewrite fired: {})\n with: {} rows, keys {:?}\n{} without: {} rows, keys {:?}\n{}{}",
+                        fired,
+                        a.len(),
+                        ka,
+                        fmt_rows(a, 30),
+                        b.len(),
+                        kb,
+                        fmt_rows(b, 30),
+                        tables()
+                    ));
+                }
+                if let Err(m) = self.check_rows(c, b, "without the rewrite") {
+                    // the literal ORDER BY/LIMIT itself is wrong: not this property's subject
+                    obs.label("baseline_sort_limit_disagrees_with_reference");
+                    if std::env::var("C43_DEBUG_BASELINE").is_ok() {
+                        return Verdict::Fail(format!("BASELINE: {}\n engine rows:\n{}{}", m, fmt_rows(b, 40), tables()));
+                    }
+                    return Verdict::Pass;
+                }
+            }
+        }
+        if let Ok(a) = &with {
+            if let Err(m) = self.check_rows(c, a, "production") {
+                return Verdict::Fail(format!("{} (rewrite fired: {})\n engine rows:\n{}{}", m, fired, fmt_rows(a, 40), tables()));
+            }
+        }
+        Verdict::Pass
+    }
+}
 
 pub fn property() -> Property {
-    Property { id: "C43", level: "exploration", assumptions: &[], checks: vec![] }
+    Property {
+        id: "C43",
+        level: "exploration",
+        assumptions: &[
+            "vector components are small integers / halves, so the engine's f32 accumulation is exact and distances are compared with a 1e-6 relative tolerance; rows whose keys are equal within it are ties",
+            "NULL vectors have a NULL distance, ordered NULLS LAST by default for both directions (binder.rs)",
+            "memory and Parquet providers have no vector index: in Indexed mode the exact path must be taken as well",
+            "when the statement WITHOUT the rewrite already disagrees with the reference ordering, the case is only labelled (plain ORDER BY/LIMIT correctness belongs to C01/C08)",
+        ],
+        checks: vec![Box::new(ExactKnn)],
+    }
 }
